@@ -71,7 +71,8 @@ def match_known(v, known):
         if k.get('status') != 'open' or k.get('property') != v.prop:
             continue
         sig = k.get('signature', {})
-        if sig.get('clause') != v.clause:
+        cl = sig.get('clause', '')
+        if not (cl == v.clause or (cl.endswith('*') and v.clause.startswith(cl[:-1]))):
             continue
         ks = sig.get('key')
         if ks is None:
